@@ -185,4 +185,12 @@ PROPS = {
         "assumptions": ["thread and process timings are sampled, not enumerated", "a creation race with NO winner (documented TOCTOU in Store::open) is recorded, not failed: the property bounds the number of live handles from above",
                         "reopen after drop is retried for up to 3 s (the lock is released by whichever thread drops the last reference to the store); the number of retries needed is reported"],
     },
+    "C17": {
+        "runs": [{"cmd": "placement", "mode": "image", "args": ["--focus", "general", "--nops", "14"], "cases": {"quick": 24, "thorough": 320}, "shards": {"quick": 8, "thorough": 16}},
+                 {"cmd": "placement", "mode": "image", "args": ["--focus", "kv", "--nops", "12", "--scale", "40", "--big"], "cases": {"quick": 4, "thorough": 32}, "shards": {"quick": 4, "thorough": 16}},
+                 {"cmd": "placement", "mode": "image", "args": ["--focus", "rollback", "--nops", "14"], "cases": {"quick": 8, "thorough": 96}, "shards": {"quick": 4, "thorough": 16}}],
+        "rule": "cases = generated API histories; before EVERY state-changing operation (session commit, overlay commit, rollback) the directory is copied (pre-image) and the ordered I/O events the operation issues are recorded through the cfg(nomt_verif) hook; the Lean driver decodes the pre-image with the independent decoders (ownership marks of every ln / bbn page, allocation frontiers, file sizes) and evaluates checkPlacement on the real trace: every event before the meta-page write must not overwrite a node / overflow page / free-list page of the previous state, shrink ln / bbn, write or resize the hash table, truncate or unlink a rollback segment. distinct & non-trivial = operations that issued at least one event.",
+        "trusted_base": IMG_TB + ["the I/O hook reports every mutating file operation (call sites listed in DESIGN.md §5); events are observed at submission"],
+        "assumptions": ["the monitor reads the pre-image through decoders that were themselves validated on every snapshot by C16's run", "worker interleavings are whatever the runs exhibit"],
+    },
 }
